@@ -205,6 +205,14 @@ pub fn run_case(rec: &mut Recorder, rng: &mut Rng, which: &str, thorough: bool, 
         branch_pct: *rng.pick(&[25, 45, 65]),
         ..DagParams::default()
     };
+    // a third of the scenarios: no explicit merges and frequent branching from old commands, so
+    // that the committed state has many (3..10) lazy heads with deep shared ancestry
+    let p = if rng.chance(1, 3) {
+        rec.count("shape:many-lazy-heads");
+        DagParams { merge_pct: 0, branch_pct: *rng.pick(&[50, 70, 85]), max_nodes: rng.range(6, if thorough { 40 } else { 18 }) as usize, ..p }
+    } else {
+        p
+    };
     let d = gen_dag(rng, &p);
     let cmds = realize(&d, case_salt);
     let g = graph_id_of(&cmds[0]);
@@ -243,6 +251,9 @@ pub fn run_case(rec: &mut Recorder, rng: &mut Rng, which: &str, thorough: bool, 
                 check_obs_against_reference(rec, &label, o);
                 if o.heads.len() >= 2 {
                     rec.count("multi_head_observations");
+                }
+                if o.heads.len() >= 3 {
+                    rec.count("observations_with_3plus_heads");
                 }
             }
         }
